@@ -645,6 +645,12 @@ fn exec(dbs: &Mutex<Dbs>, cmd: &Value) -> Result<Value, String> {
             }
             Ok(json!({"results": results}))
         }
+        "parses" => {
+            // verdict of the parser the implementation uses (grammar boundary for the generators)
+            let text = s(cmd, "text")?;
+            let ok = rustpython_parser::parse(text, rustpython_parser::Mode::Module, "").is_ok();
+            Ok(json!({"ok": ok}))
+        }
         "ping" => Ok(json!({"pong": true})),
         _ => Err(format!("unknown op {}", op)),
     }
